@@ -348,9 +348,12 @@ impl<'a> Obs<'a> {
                     out.push(v("joiner", format!("step {}: joiner evaluated arguments {:?}, expected each of 0..{} once", s, marks.iter().map(|m| m.1).collect::<Vec<_>>(), act.len())));
                     continue;
                 }
-                // sequential sync macros: everything a branch does in this step (outside the capture
-                // phase) happens while *its* argument is being evaluated
-                if !kind.is_async && !kind.is_spawn {
+                // lazy branches in the sequential macros: a branch is handed over as a closure, so
+                // everything it does in this step (outside the capture phase) happens while the joiner
+                // calls *its* thunk. (For eager branches only the value matters - where the argument
+                // expression is evaluated is not part of the property; the position tags carried by the
+                // values that continue show which argument was which.)
+                if !kind.is_async && !kind.is_spawn && self.prog.opts.lazy == Some(true) {
                     let cap_ids: Vec<u32> = self.exp.steps[*s].caps.iter().map(|e| e.id).collect();
                     for e in self.events {
                         let Some((b, es)) = self.loc(e.id) else { continue };
